@@ -219,6 +219,10 @@ func (p *Policy) sanitize(r io.Reader, w io.Writer) error {
 		skipClosingTag           bool
 		closingTagToSkipStack    []string
 		mostRecentlyStartedToken string
+
+		// for each entry of closingTagToSkipStack, the number of currently
+		// open elements of the same name that were kept after it was pushed
+		keptSameNameStack []int
 	)
 
 	tokenizer := html.NewTokenizer(r)
@@ -297,6 +301,7 @@ func (p *Policy) sanitize(r io.Reader, w io.Writer) error {
 					if !isVoidElement(token.Data) {
 						skipClosingTag = true
 						closingTagToSkipStack = append(closingTagToSkipStack, token.Data)
+						keptSameNameStack = append(keptSameNameStack, 0)
 					}
 					if p.addSpaces {
 						if _, err := buff.WriteString(" "); err != nil {
@@ -305,6 +310,13 @@ func (p *Policy) sanitize(r io.Reader, w io.Writer) error {
 					}
 					break
 				}
+			}
+
+			if skipClosingTag && !isVoidElement(token.Data) &&
+				closingTagToSkipStack[len(closingTagToSkipStack)-1] == token.Data {
+				// a kept element nested in a dropped element of the same
+				// name: the next end tag of that name belongs to it
+				keptSameNameStack[len(keptSameNameStack)-1]++
 			}
 
 			if !skipElementContent {
@@ -330,8 +342,12 @@ func (p *Policy) sanitize(r io.Reader, w io.Writer) error {
 				}
 			}
 
-			if skipClosingTag && closingTagToSkipStack[len(closingTagToSkipStack)-1] == token.Data {
+			if skipClosingTag && closingTagToSkipStack[len(closingTagToSkipStack)-1] == token.Data &&
+				keptSameNameStack[len(keptSameNameStack)-1] > 0 {
+				keptSameNameStack[len(keptSameNameStack)-1]--
+			} else if skipClosingTag && closingTagToSkipStack[len(closingTagToSkipStack)-1] == token.Data {
 				closingTagToSkipStack = closingTagToSkipStack[:len(closingTagToSkipStack)-1]
+				keptSameNameStack = keptSameNameStack[:len(keptSameNameStack)-1]
 				if len(closingTagToSkipStack) == 0 {
 					skipClosingTag = false
 				}
